@@ -212,8 +212,16 @@ fn metadata_shapes(ctx: &mut Ctx, case: u64) {
         ("empty array", b"[]"),
         ("empty string", b"\"\""),
     ];
+    let mut shapes: Vec<(String, Vec<u8>)> = shapes.iter().map(|(n, r)| (n.to_string(), r.to_vec())).collect();
+    // long non-object values with multi-byte characters at every byte offset around typical excerpt lengths
+    for pad in [0usize, 1, 2, 3, 29, 30, 31, 45, 46, 47, 48, 61, 62, 63, 125, 126, 253, 254] {
+        let body: String = "a".repeat(pad) + &"é日😀".repeat(40);
+        shapes.push((format!("long string, multi-byte characters from byte {}", pad + 1), format!("\"{body}\"").into_bytes()));
+    }
+    shapes.push((String::from("long array of multi-byte strings"), format!("[{}]", vec!["\"日本語\""; 40].join(",")).into_bytes()));
+    shapes.push((String::from("long number"), "1234567890".repeat(6).into_bytes()));
     for codec in R::CODECS {
-        for (name, raw) in shapes {
+        for (name, raw) in &shapes {
             let o = ForeignOpts {
                 codec,
                 n_entries: rng.usize(0, 20),
@@ -228,12 +236,15 @@ fn metadata_shapes(ctx: &mut Ctx, case: u64) {
                 leaf_entries: None,
                 align_gzip_leaves: false,
                 small_metadata: false,
+                mixed_dirs: false,
+                alias_leaf_offset: false,
+                regular: None,
             };
             let f = gen::gen_foreign(&mut rng, &o);
             let mat = json!({"metadata": name, "codec": R::codec_name(codec)});
             match guard(|| PMTiles::from_bytes(f.bytes.clone()).map(|p| p.num_tiles())) {
                 Ok(Err(_)) => ctx.count("non_object_metadata_refused"),
-                Ok(Ok(_)) => ctx.violation("PMTiles::from_bytes", "accepts-non-object-metadata", &format!("metadata that is JSON {name} is accepted"), &format!("archive whose metadata is `{}` opened", String::from_utf8_lossy(raw)), mat.clone()),
+                Ok(Ok(_)) => ctx.violation("PMTiles::from_bytes", "accepts-non-object-metadata", &format!("metadata that is JSON {name} is accepted"), &format!("archive whose metadata is `{}` opened", String::from_utf8_lossy(&raw[..raw.len().min(80)])), mat.clone()),
                 Err(p) => ctx.panic("PMTiles::from_bytes", &p, mat.clone()),
             }
             let mut a = AInst::new(f.bytes.clone());
@@ -260,10 +271,42 @@ fn metadata_shapes(ctx: &mut Ctx, case: u64) {
                 leaf_entries: None,
                 align_gzip_leaves: false,
                 small_metadata: false,
+                mixed_dirs: false,
+                alias_leaf_offset: false,
+                regular: None,
         };
         let f = gen::gen_foreign(&mut rng, &o);
         if PMTiles::from_bytes(f.bytes).is_err() {
             ctx.inconclusive("control archive with object metadata is refused");
+        }
+    }
+}
+
+/// Range-filtered opens (ordinary, empty and inverted ranges; sync and async) of an archive whose internal
+/// compression is unknown: every one of them is an open and must be refused.
+fn partial_opens_refuse(ctx: &mut Ctx, bytes: &[u8], mat: &serde_json::Value) {
+    use std::ops::Bound::{Excluded, Included, Unbounded};
+    let ranges = [
+        ("0..", (Included(0u64), Unbounded)),
+        ("0..0", (Included(0), Excluded(0))),
+        ("7..7", (Included(7), Excluded(7))),
+        ("9..=3", (Included(9), Included(3))),
+        ("..0", (Unbounded, Excluded(0))),
+        ("..=u64::MAX", (Unbounded, Included(u64::MAX))),
+    ];
+    for (name, r) in ranges {
+        let m = json!({"archive": mat, "range": name});
+        match guard(|| PMTiles::from_bytes_partially(bytes.to_vec(), r).map(|p| p.num_tiles())) {
+            Ok(Err(_)) => ctx.count("unknown_compression_refused_on_partial_open"),
+            Ok(Ok(_)) => ctx.violation("PMTiles::from_bytes_partially", "accepts-unknown-compression", "range-filtered opening with unknown internal compression succeeds", &format!("from_bytes_partially({name}) returned Ok"), m.clone()),
+            Err(p) => ctx.panic("PMTiles::from_bytes_partially", &p, m.clone()),
+        }
+        let mut a = AInst::new(bytes.to_vec());
+        a.pend = Pend::Alternate;
+        match guard(|| block_on(PMTiles::from_async_reader_partially(&mut a, r)).map(|p| p.num_tiles())) {
+            Ok(Err(_)) => ctx.count("unknown_compression_refused_on_partial_open"),
+            Ok(Ok(_)) => ctx.violation("PMTiles::from_async_reader_partially", "accepts-unknown-compression", "range-filtered opening with unknown internal compression succeeds", &format!("from_async_reader_partially({name}) returned Ok"), m.clone()),
+            Err(p) => ctx.panic("PMTiles::from_async_reader_partially", &p, m),
         }
     }
 }
@@ -317,6 +360,9 @@ fn unknown_compression(ctx: &mut Ctx, case: u64) {
                 leaf_entries: None,
                 align_gzip_leaves: false,
                 small_metadata: false,
+                mixed_dirs: false,
+                alias_leaf_offset: false,
+                regular: None,
             };
             let mut f = gen::gen_foreign(&mut rng, &o);
             f.bytes[97] = 0;
@@ -332,6 +378,7 @@ fn unknown_compression(ctx: &mut Ctx, case: u64) {
                 Ok(Ok(_)) => ctx.violation("PMTiles::from_async_reader", "accepts-unknown-compression", "opening with unknown internal compression succeeds", "async open returned Ok", mat.clone()),
                 Err(p) => ctx.panic("PMTiles::from_async_reader", &p, mat.clone()),
             }
+            partial_opens_refuse(ctx, &f.bytes, &mat);
             ctx.case(hash_u64s(&[crate::rng::hash_bytes(&f.bytes), 2]), true);
         }
     }
@@ -357,6 +404,7 @@ fn unknown_compression(ctx: &mut Ctx, case: u64) {
                 Ok(Ok(_)) => ctx.violation("PMTiles::from_async_reader", "accepts-unknown-compression", "opening with unknown internal compression succeeds (empty sections)", "async open returned Ok", mat.clone()),
                 Err(p) => ctx.panic("PMTiles::from_async_reader", &p, mat.clone()),
             }
+            partial_opens_refuse(ctx, &b, &mat);
         }
         for len in [0u64, 1] {
             let data = vec![0u8; len as usize];
